@@ -8,6 +8,7 @@ import Rl2tp.Model.Bitmask
 import Rl2tp.Model.Cursor
 import Rl2tp.Model.WriterLog
 import Rl2tp.Model.InPlace
+import Rl2tp.Model.DataWriter
 import Rl2tp.Spec.Md5
 namespace Rl2tp.Driver
 open Rl2tp.Text
@@ -33,8 +34,18 @@ def avps (b : Bytes) : Out Bytes DErr (List Res) := greedy b
 def owText (l : List (Nat × Nat)) : String :=
   "[" ++ ";".intercalate (l.map fun (o, n) => toString o ++ "+" ++ toString n) ++ "]"
 
+/-- what the driver runs for a message: data messages through the write-by-write model (`writeDataSteps`,
+    = `writeMsg` by `writeDataSteps_eq`), control messages through the logging encoder -/
+def runMsgL (p : Bytes) : Msg → Except Fault (Bytes × OwLog)
+  | .data d => (writeDataSteps p d).map fun w => (w, [])
+  | m => writeMsgL p m
+
+def runMsg (p : Bytes) : Msg → Except Fault Bytes
+  | .data d => writeDataSteps p d
+  | m => writeMsg p m
+
 def encMsgText (p : Bytes) (m : Msg) : String :=
-  match writeMsgL p m with
+  match runMsgL p m with
   | .error _ => "panic"
   | .ok (w, ow) => "ok " ++ hex w ++ " ow=" ++ owText ow
 
@@ -198,7 +209,7 @@ def run (f : List String) : Option String :=
   | ["rtp", p, m] => do
     let p ← unhex p
     let m ← parseMsg m
-    some (match writeMsg p m with
+    some (match runMsg p m with
       | .error _ => "enc=panic"
       | .ok full => let d := full.drop p.length; "enc=" ++ hex d ++ " dec=" ++ showDec (strictDec d))
   | ["rta", a] => do
@@ -240,7 +251,7 @@ def run (f : List String) : Option String :=
   | ["seqm", ms] => do
     let msgs ← (ms.splitOn "|").mapM parseMsg
     let all := msgs.foldl (fun (acc : Except Fault Bytes) m => match acc with
-      | .ok w => writeMsg w m
+      | .ok w => runMsg w m
       | .error f => .error f) (.ok [])
     some (match all with
       | .error _ => "enc=panic"
